@@ -525,8 +525,23 @@ def check_registry_order(prop: str, res: Result, repo: Repo):
         it = it.values[0]  # `given or []`
     if isinstance(it, ast.IfExp) and isinstance(it.orelse, (ast.List, ast.Tuple)) and not it.orelse.elts and ast.unparse(it.test) == ast.unparse(it.body):
         it = it.body  # the same default, spelled as a conditional
+    def _in_given_order(e) -> bool:
+        """the given sequence itself, or an order-preserving element-wise view of it (map(f, given), a generator / list over it)"""
+        if ast.unparse(e) == param:
+            return True
+        if isinstance(e, ast.Call) and isinstance(e.func, ast.Name) and e.func.id == "map" and len(e.args) == 2 and not e.keywords:
+            return _in_given_order(e.args[1])
+        if isinstance(e, ast.Call) and isinstance(e.func, ast.Name) and e.func.id in ("list", "tuple", "iter") and len(e.args) == 1 and not e.keywords:
+            return _in_given_order(e.args[0])
+        if isinstance(e, (ast.GeneratorExp, ast.ListComp)) and len(e.generators) == 1 and not e.generators[0].ifs:
+            return _in_given_order(e.generators[0].iter)
+        return False
+
+    comp = writers[0].value if len(writers) == 1 and isinstance(writers[0], ast.Assign) and isinstance(writers[0].value, ast.DictComp) else None
     if len(writers) == 1 and len(loops) == 1 and ast.unparse(it) == param:
         res.ok(rule, {"site": vi.where, "why": f"one loop over `{param}` fills the registry: insertion order = given order"}, nontrivial="regorder")
+    elif comp is not None and len(comp.generators) == 1 and _in_given_order(comp.generators[0].iter):
+        res.ok(rule, {"site": vi.where, "why": f"one dict comprehension over `{param}` (element-wise, order-preserving) fills the registry: insertion order = given order"}, nontrivial="regorder")
     else:
         res.fail(rule, finding(prop, rule, vi, writers[1] if len(writers) > 1 else vi.node, "the registry is filled by more than one pass over the given indicators (e.g. objects first, dicts later): the calculation order no longer follows the given order, so a chained indicator can be calculated before its input", construct=f"_validate_indicators: {len(writers)} registry writers"))
 
